@@ -51,6 +51,13 @@ enum Item {
     /// a command reading its standard input inside an asynchronous list that is not under job
     /// control: its standard input is /dev/null, the rest of the script stays with the shell
     AsyncReader(u32, u8),
+    /// a multi-command pipeline whose *first* stage is still busy when the last one has finished and
+    /// then reads the shell's standard input: the shell waits for every stage, so the data line
+    /// after the pipeline goes to that `read`, not to the parser
+    PipeReader(u32, String, u8),
+    /// a here-document operator on a line that ends with `|`: the body follows that line, the rest
+    /// of the pipeline follows the delimiter
+    HereDocPipe(u32, Vec<String>, u8),
 }
 
 struct Rendered {
@@ -219,6 +226,27 @@ fn render(items: &[Item], with_reads: bool, with_pos: bool, syntax_error_at: Opt
                     expect.push((format!("k{m}"), vec![d.clone()]));
                 }
             }
+            Item::PipeReader(n, d, form) => {
+                if with_reads {
+                    let first = format!("{{ {}read a; probe k{n} \"$a\"; }}", ["(:); (:); ", ": $(:); ", "(:); ( (:) ); : | :; "][(*form % 3) as usize]);
+                    let rest = ["| :", "| { :; }", "| : | :", "| true"][(*form / 3 % 4) as usize];
+                    text.push_str(&format!("{first} {rest}\n{d}\n"));
+                    expect.push((format!("k{n}"), vec![d.clone()]));
+                }
+            }
+            Item::HereDocPipe(n, lines, form) => {
+                let mut body = String::new();
+                for l in lines {
+                    body.push_str(l);
+                    body.push('\n');
+                }
+                text.push_str("relay <<'E_O_F' |\n");
+                text.push_str(&body);
+                text.push_str("E_O_F\n");
+                text.push_str(["", "\n", "# comment between the stages\n", "\n\n"][(*form % 4) as usize]);
+                text.push_str(&format!("{}sink k{n}\n", if *form >= 4 { "relay |\n" } else { "" }));
+                expect.push((format!("k{n}"), vec![body.len().to_string(), format!("{:016x}", fnv(body.as_bytes())), "ok".into()]));
+            }
             Item::Comment => text.push_str("# a comment line with a quote ' and a brace {\n"),
             Item::Blank => text.push_str("\n"),
             Item::Continuation(n) => {
@@ -256,7 +284,9 @@ fn gen_items(rng: &mut Rng) -> Vec<Item> {
     let mut defs: Vec<u32> = Vec::new();
     let mut funcs: Vec<u32> = Vec::new();
     for _ in 0..n {
-        let it = match rng.below(29) {
+        let it = match rng.below(33) {
+            29 | 30 => Item::PipeReader(id(), data(rng), rng.below(12) as u8),
+            31 | 32 => Item::HereDocPipe(id(), (0..rng.range(0, 3)).map(|_| data(rng)).collect(), rng.below(8) as u8),
             26 => Item::SetMonitor(rng.chance(60)),
             27 | 28 => Item::AsyncReader(id(), rng.below(6) as u8),
             24 | 25 => Item::HereDocThenRead(id(), id(), (0..rng.range(0, 2)).map(|_| data(rng)).collect(), data(rng)),
